@@ -198,6 +198,16 @@ def VInfo.wf (v : VInfo) : Bool := keyOk v.key && v.blocks.all VBlock.wf
 (all other length fields are smaller) -/
 def VInfo.fits (tight : Bool) (v : VInfo) : Bool := 2 * (v.encode tight).length < 65536
 
+/-- the content words are u16 values -/
+def u16s (l : List Nat) : Bool := l.all (· < 65536)
+def VStr.u16 (s : VStr) : Bool := u16s s.key && u16s s.stored
+def VTable.u16 (t : VTable) : Bool := u16s t.lang && t.strings.all VStr.u16
+def VVar.u16 (x : VVar) : Bool := u16s x.key && u16s x.value
+def VBlock.u16 : VBlock → Bool
+  | .stringInfo ts => ts.all VTable.u16
+  | .varInfo vs => vs.all VVar.u16
+def VInfo.u16 (v : VInfo) : Bool := u16s v.key && u16s v.value && v.blocks.all VBlock.u16
+
 /-! ### language keys -/
 
 def hexDigitVal (c : Nat) : Option Nat :=
